@@ -256,6 +256,7 @@ type Ctx struct {
 	entryObjs int // engine object counter when the function body starts
 	JSVals   map[int64]Value // EV mode: concrete values behind js.Value refs (C19 table evaluation)
 	alloc0   *Term
+	isolated map[int]string // path-condition facts (by term id) that come from an isolated loop invariant
 	initVals map[*Object]Value
 	globals  map[*ssa.Global]*Object
 }
